@@ -477,7 +477,7 @@ func fullStack(e *env, prop string, mode int) {
 		per := 40
 		maxLen := 40
 		if e.tier == "thorough" {
-			per, maxLen = 600, 60
+			per, maxLen = 250, 60 // 3 000 histories per run (several runs per property: direct, chunked, pooled handlers)
 		}
 		if batchedTiers { // every case leaves two pools behind (they keep trying to reconnect)
 			per = 8
